@@ -151,7 +151,8 @@ func (srv *Server) run() {
 			// is already exist
 			if _, ok := srv.connectedNodes[*p.RNodeID()]; ok {
 				log.Debugf("Add peer event. But connection has already exist. nodeID: %s", p.RNodeID().String()[:16])
-				p.Close()
+				// Close sends a delete peer event which only this loop takes from delPeerCh. Closing here would block forever if an event is queued already
+				go p.Close()
 				if err := srv.discover.SetConnectResult(p.RNodeID(), true); err != nil {
 					log.Infof("SetConnectResult failed: %v", err)
 				}
